@@ -235,3 +235,37 @@ theorem lower_base (F : FormatterFn) (inputs : List (Str × ValueX)) (f : Field)
         simp
 
 end PydraModel.Argv
+
+namespace PydraModel.Argv
+open List
+
+/-! ### the class form -/
+
+theorem sortByName_sorted_id : ∀ (l : List (FieldX × ValueX)),
+    l.Pairwise (fun p q => strLE p.1.base.name q.1.base.name = true) → sortByName l = l := by
+  intro l
+  induction l with
+  | nil => intro _; rfl
+  | cons p l ih =>
+    intro h
+    rw [pairwise_cons] at h
+    have : sortByName (p :: l) = insertByName p (sortByName l) := rfl
+    rw [this, ih h.2]
+    cases l with
+    | nil => rfl
+    | cons q qs => simp [insertByName, h.1 q (by simp)]
+
+/-- a class whose fields are written in name order (inputs, then outargs) is the `inputs=[…]` form -/
+theorem classOrder_id (pairs : List (FieldX × ValueX))
+    (h1 : pairs.filter (fun p => !p.1.x.out) ++ pairs.filter (fun p => p.1.x.out) = pairs)
+    (h2 : (pairs.filter (fun p => !p.1.x.out)).Pairwise (fun p q => strLE p.1.base.name q.1.base.name = true))
+    (h3 : (pairs.filter (fun p => p.1.x.out)).Pairwise (fun p q => strLE p.1.base.name q.1.base.name = true)) :
+    classOrder pairs = pairs := by
+  unfold classOrder
+  rw [sortByName_sorted_id _ h2, sortByName_sorted_id _ h3, h1]
+
+theorem tpIsBool_eq (f : Field) : f.tpIsBool = f.isBool := by
+  unfold Field.tpIsBool Field.typeIsBool
+  cases f.optional <;> simp
+
+end PydraModel.Argv
